@@ -236,6 +236,15 @@ vnacal_new_parameter_t *_vnacal_new_get_parameter(const char *function,
     vnacal_new_parameter_t *ncprp_correlate = NULL;
 
     /*
+     * Reject negative indices before they're used as a hash key.
+     */
+    if (parameter < 0) {
+	_vnacal_error(vcp, VNAERR_USAGE, "%s: invalid parameter index %d",
+		function, parameter);
+	return NULL;
+    }
+
+    /*
      * Search for the parameter in the hash and return if found.
      */
     if ((vnprp = hash_lookup(vnphp, parameter)) != NULL) {
